@@ -144,7 +144,10 @@ def stmt_table(src: str, tree):
                         r = min(r[:2], node_rect(lines, d)[:2]) + r[2:]
                 blk = isinstance(c, BLOCK_STMTS)
                 b = _first_body_pos(lines, c, ktoks) if blk else None
-                out.append([type(c).__name__, r[0], r[1], r[2], r[3], 1 if blk else 0,
+                kind = type(c).__name__
+                if kind == 'If' and lines[r[0]][r[1]:r[1] + 4] == 'elif':
+                    kind = 'Elif'  # an If written as `elif` (read off the text at its start)
+                out.append([kind, r[0], r[1], r[2], r[3], 1 if blk else 0,
                             b[0] if b else -1, b[1] if b else -1, depth])
                 visit(c, depth + 1)
 
@@ -264,7 +267,7 @@ class View:
 
 RECT_KINDS_CLEAN = ('node', 'stmt', 'newline-stmt', 'tok')
 RECT_KINDS_ALL = ('node', 'stmt', 'newline-stmt', 'newline-stmt0', 'tok', 'tokrange', 'intok', 'span', 'lines', 'indent', 'point',
-                  'random', 'header', 'stmt-tail', 'stmt-head', 'gap')
+                  'random', 'header', 'stmt-tail', 'stmt-head', 'gap', 'elif-whole')
 
 
 def pick_rect(v: View, rng: random.Random, kind: str):
@@ -383,6 +386,15 @@ def pick_rect(v: View, rng: random.Random, kind: str):
         if kind == 'stmt-tail':
             return v.tok_rect(st[-k])[:2] + r[2:], {'stmt': n}
         return r[:2] + v.tok_rect(st[k - 1])[2:], {'stmt': n}
+    if kind in ('elif-whole', 'elif-chain-whole'):
+        c = [s for s in v.stmts if v.is_elif(s)]
+        if kind == 'elif-chain-whole':  # an elif of an elif: the case fst_raw handles with an explicit end fix-up
+            par = {id(p.orelse[0]): p for p in v.stmts if isinstance(p, ast.If) and len(p.orelse) == 1}
+            c = [s for s in c if id(s) in par and v.is_elif(par[id(s)])]
+        if not c:
+            return None
+        n = rng.choice(c)
+        return v.rect(n), {'elif': n}
     if kind == 'gap' and len(v.toks) >= 2:
         i = rng.randrange(len(v.toks) - 1)
         a, b = v.tok_rect(v.toks[i]), v.tok_rect(v.toks[i + 1])
@@ -461,6 +473,14 @@ def pick_repl(v: View, rng: random.Random, rect, rkind: str, aux: dict, profile:
             return 'op', rng.choice(OPS)
         if clean:
             return 'same', old
+    if rkind in ('elif-whole', 'elif-chain-whole'):
+        if r < 0.5:
+            return 'empty', ''
+        if r < 0.7:
+            return 'else-block', 'else:\n' + ind + '    pass'
+        if r < 0.85:
+            return 'elif-block', 'elif q:\n' + ind + '    pass'
+        return 'same', old
     if rkind == 'indent' and r < 0.7:
         return 'indent', rng.choice(['', ' ', '  ', '    ', '        ', '\t', ind, ind + '    ', ind[:-4] if len(ind) >= 4 else ''])
     if rkind == 'lines' and r < 0.5:
@@ -497,7 +517,8 @@ PROFILES = {
     # rect kind weights; 'clean' = classes that are quiet on the pinned tree (regressions there must not hide)
     'clean': {'node': 5, 'stmt': 4, 'newline-stmt': 4, 'tok': 3},
     'wild': {'node': 2, 'stmt': 2, 'newline-stmt': 1, 'newline-stmt0': 1, 'tok': 3, 'tokrange': 3, 'intok': 3, 'span': 3, 'lines': 3,
-             'indent': 3, 'point': 4, 'random': 3, 'header': 3, 'stmt-tail': 2, 'stmt-head': 2, 'gap': 2},
+             'indent': 3, 'point': 4, 'random': 3, 'header': 3, 'stmt-tail': 2, 'stmt-head': 2, 'gap': 2,
+             'elif-whole': 2},
 }
 
 
@@ -543,6 +564,8 @@ def plan_put_src(v: View, rng: random.Random, profile: str):
     kinds = list(w)
     for _ in range(12):
         k = rng.choices(kinds, [w[x] for x in kinds])[0]
+        if _ == 0 and rng.random() < 0.2:
+            k = 'elif-chain-whole'  # rare shape: tried first, falls through when the program has no such chain
         pr = pick_rect(v, rng, k)
         if pr is None:
             continue
@@ -589,8 +612,9 @@ def plan_raw_put(v: View, rng: random.Random):
         if later:
             to = rng.choice(later)
             rect = rect[:2] + v.rect(to)[2:]
-    before = [t for t in v.toks if v.tok_rect(t)[2:] <= rect[:2]]
-    after = [t for t in v.toks if v.tok_rect(t)[:2] >= rect[2:]]
+    code = [t for t in v.toks if t.type != tokenize.COMMENT]
+    before = [t for t in code if v.tok_rect(t)[2:] <= rect[:2]]
+    after = [t for t in code if v.tok_rect(t)[:2] >= rect[2:]]
     wrapped = bool(before and before[-1].string == '(') or bool(after and after[0].string == ')')
     pars_false = wrapped or rng.random() < 0.5
     r = rng.random()
@@ -818,4 +842,7 @@ EXTRA_PROGRAMS = [
     '@dec\n@dec2(arg)\ndef f(a, b=1):\n    return a + b\n\n@cd\nclass C(B):\n    x = 1\n    def m(self):\n        return self.x\n',
     'with a as b: c = b; d = c\nfor i in j: k = i\nx = (1,\n     2); y = x\n',
     'def g():\n    """doc"""\n    α = 1  # α\n    β = α + 1; γ = β * 2  # βγ\n    return γ\n',
+    'def z(a, c, e):\n    if a:\n        b = 1\n    elif c:\n        d = 2\n    elif e:\n        f = 3\n',
+    'class K:\n    def m(s):\n        if s.a: return 1\n        elif s.b: return 2\n        elif s.c: return 3\n        elif s.d: return 4\n',
+    'x = 0\nif x == 1:\n    y = 1\nelif x == 2:\n    y = 2\nelif x == 3:\n    y = 3\nelif x == 4:\n    y = 4',
 ]
